@@ -29,6 +29,7 @@ def tasks(tier):
         combos = [dict(cons=c, vars=v) for c, v in (([], ["boxed"]), (["eq0"], ["boxed"]), (["ge"], ["boxed"]), (["ranged"], ["lower"]), (["eq0"], ["free"]))]
         combos.append(dict(cons=["eq0"], vars=["boxed"], limit=False))
         combos.append(dict(cons=["eq0"], vars=["boxed", "upper"]))
+        combos.append(dict(cons=["le"], vars=["lower"], scaling=dict(vw=[-2], cw=[1], ow=2)))
         return loop.loop_tasks(combos, 2) + loop.loop_tasks([dict(cons=[], vars=["boxed"]), dict(cons=[], vars=["lower"], policy="ObjectiveFilter")], 4)
     combos = [dict(cons=c, vars=v) for c in (["eq0"], ["eqb"], ["ge"], ["le"], ["ranged"]) for v in (["boxed"], ["fixed"], ["upper"])]
     combos.append(dict(cons=["eq0"], vars=["boxed"], limit=False))
